@@ -8,8 +8,15 @@
 
   Assumed (trusted): the timer contract of time.AfterFunc / Stop / Reset as written down at the top
   of Model/Timers.lean.
+
+  The model's steps are coarser than the source (a whole addTemplate is one step during which the clock
+  stands still; a callback's conditional deletion is one step). The last section (`tie_*`) pins these
+  atomicity assumptions to the shape of the source as re-extracted by tools/timerfacts into
+  Generated/Timers.lean: a change of that shape breaks a theorem here although no input of the
+  correspondence run - whose clock moves only between steps - can exhibit it.
 -/
 import IpfixModel.Lemmas.Timers
+import IpfixModel.Generated.Timers
 namespace Ipfix.C10
 open Ipfix.Timers
 
@@ -239,6 +246,139 @@ theorem model_verdict_none (ttl : Nat) (es : List Event) (e : Event) :
   have := step_ok (inv_reachable ttl es) (ghost_reachable ttl es) .advanced e
   rw [run_ttl] at this
   exact this
+
+/-! ## ties: the atomic steps of the event model vs the source (facts regenerated from /repo by tools/timerfacts)
+
+  Every theorem below is `decide` over Generated/Timers.lean. Line numbers are carried by the facts for the
+  reader only; no theorem mentions them. -/
+section Ties
+open Generated.TimerFacts
+
+/-- what the ties compare of a statement: its kind and its detail (never its line) -/
+def tieSig (e : Ev) : String × String := (e.kind, e.detail)
+
+/-- the statement kinds that operate on cp.mutex -/
+def tieMutexKinds : List String := ["lock", "rlock", "unlock", "runlock", "defer-unlock", "defer-runlock"]
+
+/-- a path through addTemplate without its mutex statements -/
+def tieTimerPart (p : List Ev) : List (String × String) :=
+  (p.filter (fun e => !tieMutexKinds.contains e.kind)).map tieSig
+
+/-- the statements of deleteTemplateWithConds whose relative order matters -/
+def tieOrderKinds : List String :=
+  tieMutexKinds ++ ["range-conds", "call-cond", "end-range-conds", "stop-timer", "arm-AfterFunc", "arm-Reset",
+                    "delete-template-entry", "delete-domain-entry", "delete-other", "call-cp", "go", "defer"]
+
+/-- the statements between `for .. range condFns {` and its closing brace -/
+def tieLoopBody (l : List Ev) : List Ev :=
+  ((l.dropWhile (fun e => e.kind != "range-conds")).drop 1).takeWhile (fun e => e.kind != "end-range-conds")
+
+/-- the two shapes of the UDP part of addTemplate: read the clock once, assign expiryTime, THEN arm the timer -/
+def tieNewTimerPath : List (String × String) :=
+  [("call-cp", "clock.Now"), ("assign-expiryTime", "cp.clock.Now().Add(cp.templateTTL)"), ("arm-AfterFunc", "cp.templateTTL")]
+def tieRefreshPath : List (String × String) :=
+  [("call-cp", "clock.Now"), ("assign-expiryTime", "cp.clock.Now().Add(cp.templateTTL)"), ("arm-Reset", "cp.templateTTL")]
+
+/-- Pins: `Event.tpl` is ONE step of the model (Timers.next: store / refresh the template, set its expiry and
+    arm or reset its timer, all in one transition). In the source every path through addTemplate starts with
+    `cp.mutex.Lock(); defer cp.mutex.Unlock()`, never touches the mutex again, and so runs under the write
+    lock from its first to its last interesting statement: no callback's deletion step and no other packet's
+    addTemplate can fall between the assignment of expiryTime and the arming of the timer.
+    No input can exhibit a violation: the harness runs one packet / one callback step at a time, so a window
+    opened by releasing the lock inside addTemplate is never entered by anything. -/
+theorem tie_add_template_is_one_locked_step :
+    addTemplatePaths.isEmpty = false ∧
+    addTemplatePaths.all (fun p =>
+      (p.filter (fun e => tieMutexKinds.contains e.kind)).map (·.kind) == ["lock", "defer-unlock"] &&
+      (p.take 2).map (·.kind) == ["lock", "defer-unlock"] &&
+      p.all (fun e => e.held == 2)) = true := by decide
+
+/-- Pins: in the model's `tpl` step the clock stands still - the template's expiry and its timer's deadline
+    are both `now + ttl` for the same `now` (invariant clause armedOwner: deadline = expiry), which is what
+    makes a callback that starts at or after the deadline find the template expired. The source reads the
+    clock twice in real time (cp.clock.Now() for expiryTime, and again inside AfterFunc / Reset), so what
+    holds there is only `expiryTime <= deadline`, and only BECAUSE expiryTime is assigned first: on every
+    path through addTemplate that does anything for UDP, cp.clock.Now() is read once,
+    `expiryTime = now.Add(cp.templateTTL)` is assigned, and only then is the timer armed, with the same
+    cp.templateTTL, by exactly one of AfterFunc (new template) and Reset (refresh); no path assigns without
+    arming, arms without assigning, arms twice or stops the timer; both shapes occur.
+    No input can exhibit a violation: were the assignment moved after the arming, real time passing between
+    the two would let the callback find the template "not yet expired" with nothing left to re-arm the
+    timer - but the harness clock moves only between steps, so within addTemplate both reads return the
+    same instant in any order. -/
+theorem tie_expiry_assigned_before_timer_armed :
+    addTemplatePaths.all (fun p => tieTimerPart p == [] || tieTimerPart p == tieNewTimerPath || tieTimerPart p == tieRefreshPath) = true ∧
+    addTemplatePaths.any (fun p => tieTimerPart p == tieNewTimerPath) = true ∧
+    addTemplatePaths.any (fun p => tieTimerPart p == tieRefreshPath) = true := by decide
+
+/-- Pins: a timer callback is exactly two steps of the model, `cbReadNow` (read the clock) and `cbFinish`
+    (ONE atomic test-and-delete: Timers.next deletes iff the template stored under the key has
+    `expiry <= nowRead`, test and deletion in the same transition). In the source there is one AfterFunc
+    call, in addTemplate, and it is handed a function literal whose calls - klog aside - are, in a straight
+    line (depth 0: no `if`, no loop, no early `return`, no `go` / `defer`): `now := cp.clock.Now()` and then
+    ONE cp.deleteTemplateWithConds(.., cond). `cond` is a function literal over the STORED template (its
+    parameter, not a variable captured from addTemplate) that returns `!T.expiryTime.After(now)`, i.e.
+    expiry <= nowRead with the `now` bound above, reads expiryTime once, and uses neither the receiver nor
+    anything else. The callback calls no other deletion function (not the unconditional deleteTemplate, no
+    `delete`, no timer operation), conditions are passed to deleteTemplateWithConds by the timer callback
+    only, and no deletion function is called with cp.mutex held.
+    No input can exhibit a violation: a callback that tests expiryTime in one critical section and deletes
+    in another (test under RLock, then the unconditional deleteTemplate) loses a refresh that lands between
+    the two - but the harness runs `cbfin` as one uninterrupted call, no packet is ever processed inside it. -/
+theorem tie_callback_is_one_conditional_delete :
+    timerCallbacks.length = 1 ∧
+    timerCallbacks.all (fun cb =>
+      cb.inFunc == "addTemplate" && cb.isFuncLit &&
+      (cb.order.filter (fun e => e.kind != "log")).map (fun e => (e.kind, e.detail, e.depth)) ==
+        [("call-cp", "clock.Now", 0), ("bind-now", "now", 0), ("call-cp", "deleteTemplateWithConds", 0)] &&
+      cb.conds.length == 1 &&
+      cb.conds.all (fun c =>
+        c.isFuncLit && c.param != "" && c.paramExpiryReads == 1 && c.otherExpiryReads == 0 &&
+        c.cmp == [("After", "now")] && !c.usesRecv && c.ret == "!T.expiryTime.After(now)" &&
+        c.order.map (·.kind) == ["read-expiryTime", "call-other", "return"])) = true ∧
+    (deleteCalls.filter (fun d => d.unit == "addTemplate/timer-callback")).map (fun d => (d.callee, d.conds)) =
+      [("deleteTemplateWithConds", 1)] ∧
+    (deleteCalls.filter (fun d => d.conds != 0)).all (fun d => d.unit == "addTemplate/timer-callback") = true ∧
+    deleteCalls.all (fun d => d.held == 0) = true := by decide
+
+/-- Pins: what `cbFinish` (and `badTpl`, through the unconditional deleteTemplate = deleteTemplateWithConds
+    without conditions) does in ONE step: look the template up, evaluate the condition on it, and - only if
+    it holds - stop its timer and remove it (TState.delete). In the source deleteTemplateWithConds takes the
+    WRITE lock (`cp.mutex.Lock()`, not RLock) with a deferred unlock as its first statements and never
+    touches the mutex again; the loop over condFns comes next and its body is `if !condFn(..) { return false }`
+    (a failing condition leaves the function before anything is changed); `expiryTimer.Stop()` comes AFTER
+    the loop, `delete(cp.templatesMap[..], ..)` after both, unconditionally; everything at lock state 2.
+    So the condition is evaluated, the timer stopped and the entry removed in one critical section, and a
+    template whose condition fails keeps its (possibly re-armed) timer.
+    No input can exhibit a violation of the locking part (a read lock, or a lock released between condition
+    and deletion): nothing runs concurrently with `cbfin` in the harness. (The order part alone - Stop()
+    before the conditions - is visible to inputs; it is pinned here all the same because the theorem
+    `stored_has_expiry_pending` rests on it.) -/
+theorem tie_conditional_delete_order :
+    (deleteTemplateWithCondsOrder.filter (fun e => tieOrderKinds.contains e.kind)).map (fun e => (e.kind, e.depth, e.held)) =
+      [("lock", 0, 2), ("defer-unlock", 0, 2), ("range-conds", 0, 2), ("call-cond", 1, 2), ("end-range-conds", 0, 2),
+       ("stop-timer", 1, 2), ("delete-template-entry", 0, 2), ("delete-domain-entry", 1, 2)] ∧
+    (tieLoopBody deleteTemplateWithCondsOrder).map (fun e => (e.kind, e.depth)) = [("call-cond", 1), ("if", 1), ("return", 2)] ∧
+    ((tieLoopBody deleteTemplateWithCondsOrder).filter (fun e => e.kind == "return")).map (·.detail) = ["false"] ∧
+    deleteTemplateOrder.map (·.kind) = ["call-cp", "return"] ∧
+    (deleteTemplateOrder.filter (fun e => e.kind == "call-cp")).map (·.detail) = ["deleteTemplateWithConds"] := by decide
+
+/-- Pins: `expiry` is a field of the model's stored template that only the `tpl` step writes and only the
+    `cbFinish` step reads, both atomic. In the source the field template.expiryTime (a time.Time) is
+    written in exactly one place - addTemplate, lock state 2 (write lock held) - and read in exactly one
+    place - the deletion condition of the timer callback, which runs inside deleteTemplateWithConds' write
+    lock (tie_conditional_delete_order; its own lexical lock state is 0 because it is a function literal).
+    A new reader or writer anywhere in pkg/collector - e.g. a helper that tests expiryTime under the read
+    lock, outside the deleting critical section - changes this list.
+    No input can exhibit a violation: an access outside the write lock matters only to a concurrent
+    goroutine, and the harness has none. -/
+theorem tie_expiryTime_accessors :
+    expiryTimeAccesses.map (fun a => (a.unit, a.write, a.held)) =
+      [("addTemplate", true, 2), ("addTemplate/timer-callback/delete-cond", false, 0)] ∧
+    templateFields.contains ("expiryTime", "time.Time") = true ∧
+    templateFields.contains ("expiryTimer", "timer") = true := by decide
+
+end Ties
 
 /-! ## non-vacuity -/
 
